@@ -6,6 +6,7 @@ Import ListNotations.
 Open Scope N_scope.
 
 Record run_obs := { r_method : N; r_src : val; r_n0 : N;
+                    r_pre : option val;                 (* update methods: content of the target struct before the call *)
                     r_out : option val;                 (* None = the call panicked *)
                     r_shared : list (list pstep) }.     (* result positions whose address belongs to the source *)
 
@@ -45,9 +46,17 @@ Definition paths_eq (a b : list (list pstep)) : bool := subset a b && subset b a
 Definition RUN_FUEL : nat := 400.
 Definition EQ_FUEL : nat := 200.
 
-(* failure codes: 1 outcome differs; 2 result value differs; 3 panic-ness differs; 4 sharing differs;
+(* failure codes: 1 success/failure of generation differs; 6 both fail with different diagnostic classes; 2 result value differs; 3 panic-ness differs; 4 sharing differs;
    5 model out of fuel / stuck *)
 Definition check_run (e : env) (tab : table) (r : run_obs) : list N :=
+  match r_pre r with
+  | Some old =>
+    match run_update e tab RUN_FUEL (r_method r) (r_src r) old (r_n0 r) with
+    | Done (v, _) => match r_out r with Some o => if val_eqb EQ_FUEL (erase v) (erase o) then [] else [2] | None => [3] end
+    | Panicked => match r_out r with None => [] | Some _ => [3] end
+    | _ => [5]
+    end
+  | None =>
   match run e tab RUN_FUEL (r_method r) (r_src r) (r_n0 r) with
   | Done (v, _) =>
     match r_out r with
@@ -57,6 +66,7 @@ Definition check_run (e : env) (tab : table) (r : run_obs) : list N :=
     end
   | Panicked => match r_out r with None => [] | Some _ => [3] end
   | _ => [5]
+  end
   end.
 
 (* settings in effect, computed by the settings model from the raw lines *)
@@ -83,7 +93,7 @@ Definition case_generate (c : conv_case) : gres table :=
 Definition check_case (c : conv_case) : list N :=
   match case_generate c with
   | GOk tab => if k_outcome c =? 0 then flat_map (check_run (k_env c) tab) (k_runs c) else [1]
-  | GDiag cl => if cl =? k_outcome c then [] else [1]
+  | GDiag cl => if cl =? k_outcome c then [] else if k_outcome c =? 0 then [1] else [6]
   | GPanic _ => if k_outcome c =? 1 then [] else [1]
   | GFuel => [5]
   end.
